@@ -233,6 +233,9 @@ def aggregate(prop, results):
                                            first_lines=r["sample"]))
         elif r["kind"] == "oracle":
             stats.update(r.get("stats", {}))
+            if r.get("tie_problem"):
+                agg["diffs"].append(dict(suite="bracket", fam=r.get("fam"), seed=r.get("seed"), line=r.get("profile"),
+                                         real=r["tie_problem"], model="SC/Conc.lean Bracket.trace", ops=None))
             shapes.add("o%d/%d/%s/%s" % (r["fam"], r["seed"], r["profile"], sorted(r.get("stats", {}).items())))
             for v in r.get("violations", []):
                 if prop in v["props"]:
